@@ -1,5 +1,6 @@
 import Hive.Proofs.KVRefine
 import Hive.Proofs.KVCopy
+import Hive.Proofs.KVTrace
 /-!
 # C04 — KVStore views and wrappers obey one ordered-map contract
 
@@ -294,6 +295,86 @@ theorem C04_copyBytes (src : Bytes) (n : Nat) :
   refine ⟨rfl, rfl, ?_⟩
   simp only [copyBytes, List.length_append, List.length_take, List.length_replicate]
   omega
+
+/-! ## closed is forever, directions -/
+
+/-- **After Close, for ever**: whatever requests follow a `Close` (on any view, through any wrappers), every
+later read, write, iteration, view creation, batch creation, Flush and batch Commit on every handle fails with
+ErrStoreClosed (or names a handle that was never created) and leaves the stored data alone. -/
+theorem C04_closed_forever (s : St) (v : Nat) (vw : View) (hv : s.views.lookup v = some vw) (ops : List Op)
+    (op : Op) (hop : needsOpen op = true) :
+    let s' := (run (step s (.close v)).1 ops).1
+    ((step s' op).2 = .closed ∨ (step s' op).2 = .badHandle) ∧ (step s' op).1.db = s'.db :=
+  C04_closed_everything_fails _ (C04_close_is_final s v vw hv ops).2 op hop
+
+/-- **Both directions report the same entries**: a backward iteration makes exactly the consumer calls of the
+forward iteration, in reverse order (so `IterDirectionBackward` is descending byte order of the same key set). -/
+theorem C04_iterate_backward_is_reverse (s : St) (hi : Inv s) (realm p : Bytes) :
+    iterAll realm p .bwd s.db.m = (iterAll realm p .fwd s.db.m).reverse ∧
+    iterKeysAll realm p .bwd s.db.m = (iterKeysAll realm p .fwd s.db.m).reverse := by
+  refine ⟨iterAll_bwd realm p hi.nodup, ?_⟩
+  rw [iterKeysAll_eq, iterKeysAll_eq, iterAll_bwd realm p hi.nodup, List.map_reverse]
+
+/-! ## what the wrappers forward (`Hive/Model/KVTrace.lean`) -/
+
+/-- **Normal form of every call through every wrapper stack** (`ws`: any stack of `flushkv` layers and `debug`
+layers with any filter, with or without callback).  A forwarded call (`trFwd`: reads, `Flush`, `Close`, `Realm`,
+`WithRealm`, `Batched`, batch `Set`/`Delete`/`Cancel`) and a mutator (`trMut`: `Set`, `Delete`, `DeletePrefix`,
+`Clear`, batch `Commit`) produce: first the callbacks of the debug layers (`cbs`, outermost first), then the call
+itself on the wrapped store — exactly once, with the caller's arguments — and then, for a mutator that returned
+nil, exactly one `Flush()` per `flushkv` layer, and none when it failed.  Methods without a command constant
+(`none`) produce no callback at all. -/
+theorem C04_wrapper_trace (ws : List TWrap) (c : Option (Cmd × List Bytes)) (call : Call) (ok : Bool) :
+    trFwd c call ws = cbs c ws ++ [.call call] ∧
+    trMut c call ok ws = cbs c ws ++ .call call :: List.replicate (if ok then flushLayers ws else 0) (.call .flush) ∧
+    cbs none ws = [] :=
+  ⟨trFwd_eq c call ws, trMut_eq c call ok ws, cbs_none ws⟩
+
+/-- **Which callbacks happen**: a request with command constant `c` and arguments `a` reaches the callback of
+exactly those debug layers that have one and whose filter has the bit of `c` (`bitmask.HasBits`), with `c` and
+`a` unchanged; in particular a layer made by `debug.New(s, cb, ShutdownCommand)` (filter 0) or `debug.New(s, nil)`
+reports nothing, one made without filter arguments reports every command. -/
+theorem C04_debug_reports (c : Cmd) (a : List Bytes) (ws : List TWrap) (e : Ev) :
+    (e ∈ cbs (some (c, a)) ws ↔ ∃ f, TWrap.debug f true ∈ ws ∧ (f &&& c.bit) ≠ 0 ∧ e = .cb f c a) ∧
+    (∀ c' : Cmd, (newFilter [] &&& c'.bit) ≠ 0) ∧ (∀ c' : Cmd, (newFilter [0] &&& c'.bit) = 0) := by
+  refine ⟨mem_cbs c a ws e, ?_, ?_⟩ <;> intro c' <;> cases c' <;> decide
+
+/-- **flushkv flushes after every mutation that took effect** (request level): through a view whose stack is `ws`,
+`Set` / `Delete` / `DeletePrefix` / `Clear` reach the wrapped store once, with the caller's arguments, followed by
+one `Flush` per `flushkv` layer iff the store is open; a batch `Commit` likewise. -/
+theorem C04_flush_follows_mutation (t : TTab) (s : St) (v b : Nat) (ws wb : List TWrap) (bt : Batch)
+    (hv : t.views.lookup v = some ws) (hb : t.batches.lookup b = some wb) (hbm : s.batches.lookup b = some bt)
+    (k x p : Bytes) (final : Bool) :
+    let fl := fun (w : List TWrap) => List.replicate (if s.db.closed then 0 else flushLayers w) (Ev.call .flush)
+    traceOp t s [] (.set v k x) = cbs (some (.set, [k, x])) ws ++ .call (.set k x) :: fl ws ∧
+    traceOp t s [] (.del v k) = cbs (some (.delete, [k])) ws ++ .call (.delete k) :: fl ws ∧
+    traceOp t s [] (.delp v p) = cbs (some (.deletePrefix, [p])) ws ++ .call (.deletePrefix p) :: fl ws ∧
+    traceOp t s [] (.clear v) = cbs (some (.clear, [])) ws ++ .call .clear :: fl ws ∧
+    traceOp t s [] (.commit b final) = .call .bCommit :: fl wb := by
+  cases hc : s.db.closed <;> simp [traceOp, hv, hb, hbm, trMut_eq, cbs_none, hc]
+
+/-- **The configured stacks are the model's stacks, along every history**: the handle tables the traces are
+computed from (`TTab`, which remember how each `debug.New` was configured) agree with the wrapper stacks of the
+model of the answers (`St`), for every history in which each `wrap` request comes with a configuration of its
+kind; and the store state of that run is the one of `run`. -/
+theorem C04_trace_tables_agree (ops : List (Op × TWrap))
+    (hc : ∀ e ∈ ops, ∀ v p w, e.1 = .wrap v p w → e.2.erase = w) :
+    Agree (tabRun TTab.init init ops).1 (tabRun TTab.init init ops).2 ∧
+    (tabRun TTab.init init ops).2 = (run init (ops.map (·.1))).1 :=
+  ⟨agree_run _ _ agree_init ops hc, tabRun_snd _ _ ops⟩
+
+/-- The hypothesis of `C04_trace_tables_agree` is satisfiable; the trace of a `Set` through
+flushkv∘debug(Set|Iterate)∘flushkv∘debug(nil) and of a `Get` through the same stack. -/
+example : ∀ e ∈ [((Op.wrap 1 0 .flush), TWrap.flush), (.wrap 2 1 .debug, .debug 17 true), (.set 2 [1] [2], .flush)],
+    ∀ v p w, e.1 = .wrap v p w → e.2.erase = w := by
+  intro e he v p w h
+  simp only [List.mem_cons, List.mem_nil_iff, or_false] at he
+  rcases he with rfl | rfl | rfl <;> simp_all [TWrap.erase]
+
+example : trMut (some (.set, [[1], [2]])) (.set [1] [2]) true [.flush, .debug 17 true, .flush, .debug 255 false] =
+    [.cb 17 .set [[1], [2]], .call (.set [1] [2]), .call .flush, .call .flush] ∧
+    trFwd (some (.get, [[1]])) (.get [1]) [.flush, .debug 17 true, .flush, .debug 255 false] = [.call (.get [1])] := by
+  decide
 
 /-! ## the hypotheses are satisfiable: concrete histories -/
 
